@@ -1240,7 +1240,14 @@ fn run_x(case: &str, st: &mut Stats) -> Outcome {
         let mut order: Vec<usize> = (0..rows.len()).collect();
         order.sort_by_key(|j| num[*j]);
         let rs: Vec<String> = order.iter().map(|j| rows[*j].iter().map(|(a, b)| format!("{}:{}", show_ptr(&renum(a, &num)), show_ptr(&renum(b, &num)))).collect::<Vec<_>>().join("+")).collect();
-        out.push(format!("{};{}", rs.join(" "), show_ptr(&renum(&root, &num))));
+        if compress {
+            out.push(format!("{};{}", rs.join(" "), show_ptr(&renum(&root, &num))));
+        } else {
+            // the shape of an uncompressed SDD is not fixed by any property (it depends on the order
+            // in which apply meets elements): only what the table DENOTES is compared there
+            let tt = got.unwrap_or(0);
+            out.push(format!("tt:{}", (0..(1usize << NV)).map(|a| if (tt >> a) & 1 == 1 { '1' } else { '0' }).collect::<String>()));
+        }
     }
     if general { st.bump("x_cases_with_general_nodes") }
     st.bump(&format!("x_maxrows={}", if maxrows < 2 { "0-1" } else if maxrows < 5 { "2-4" } else { "5+" }));
